@@ -170,10 +170,8 @@ where
     }
 
     pub fn remove_all(&mut self, x: A) {
-        if x.as_usize() >= self.data.len() {
-            if let Some(values) = self.data.get_mut(x.as_usize()) {
-                values.clear();
-            }
+        if let Some(values) = self.data.get_mut(x.as_usize()) {
+            values.clear();
         }
     }
 
@@ -404,8 +402,9 @@ where
 
     /// Remove a relation from the map
     pub fn remove_all(&mut self, x: A) {
-        if x.as_usize() >= self.data.len() {
-            self.data.remove(x.as_usize());
+        //clear the entry in place: removing it from the vector would shift all entries after it
+        if let Some(map) = self.data.get_mut(x.as_usize()) {
+            map.data.clear();
         }
     }
 
